@@ -99,3 +99,42 @@ Definition c04_m1h (c : cfg) (ir : skel) : sx :=
   | L [names; out; lex] => L [I (hsx names 0); out; lex]
   | x => x
   end.
+
+(* ---------- M3 ---------- *)
+Definition sTok (t : tok) : sx :=
+  match t with
+  | TPct s => L [I 0; sStr s] | TCaret s => L [I 1; sStr s]
+  | TBare k => L [I 2; I k] | TStrL k => L [I 3; I k] | TAt k => L [I 4; I k]
+  | TLP => I 10 | TRP => I 11 | TLB => I 12 | TRB => I 13 | TLS => I 14 | TRS => I 15
+  | TLT => I 16 | TGT => I 17 | TComma => I 18 | TColon => I 19 | TEq => I 20 | TArrow => I 21
+  end.
+Definition sAtom (a : atom) : sx :=
+  match a with ABare k => L [I 2; I k] | AStr k => L [I 3; I k] | AAt k => L [I 4; I k] end.
+Definition sEntry (e : entry) : sx :=
+  L [sAtom (fst e); match snd e with None => I (-1) | Some v => sAtom v end].
+
+Fixpoint payload (o : skel) : list sx :=
+  match o with
+  | Op nm res args succs props regs attrs it ot =>
+      L [I 0; I nm; L (map sEntry props); L (map sEntry attrs); L (map sAtom it); L (map sAtom ot)]
+      :: flat_map (fun r : list (block (Z * hint) Z (Z * hint)) => flat_map payload_block r) regs
+  end
+with payload_block (b : block (Z * hint) Z (Z * hint)) : list sx :=
+  match b with
+  | Bk lab bargs ops => L [I 1; L (map (fun a => sAtom (snd a)) bargs)] :: flat_map payload ops
+  end.
+
+Definition c04_m3_print (c : cfg) (ir : skel) : sx := I (hsx (L (map sTok (print_ir c ir))) 0).
+Definition c04_m3_parse (c : cfg) (ts : list tok) : sx :=
+  match parse_ir c ts with
+  | Err _ => L [I (-1); I 1]
+  | Ok ir => L [I 0; I (hsx (L (text_leaves (sched ir) [] 0)) 0); I (hsx (L (payload ir)) 0)]
+  end.
+(* rich skeletons for case files *)
+Definition sk_opx (nm : Z) (res args : list (Z * hint)) (succs : list Z) (props : list entry)
+  (regs : list (list (block (Z * hint) Z (Z * hint)))) (attrs : list entry) (it ot : list atom) : skel :=
+  Op nm res args succs props regs attrs it ot.
+Definition sk_bkx_ (hh : Z -> hint) (b : Z) (k : Z) (bargs : list ((Z * hint) * atom)) (ops : list skel)
+  : block (Z * hint) Z (Z * hint) := Bk (b, hh k) bargs ops.
+Definition en (k : atom) (v : atom) : entry := (k, Some v).
+Definition eu (k : atom) : entry := (k, None).
